@@ -18,17 +18,25 @@ import warnings
 warnings.simplefilter("ignore")
 
 # the process runs in a time zone other than UTC (with a half-hour offset): nothing in the round trip may depend on it
-os.environ["TZ"] = os.environ.get("VERIF_C01_TZ", "Asia/Kolkata")
+os.environ["TZ"] = os.environ.get("VERIF_C01_TZ", "IST-5:30")     # POSIX form: no zone database needed
 try:
     import time as _time
     _time.tzset()
 except Exception:  # noqa: BLE001
     pass
 
-import stix2  # noqa: E402
-import stix2.base  # noqa: E402
-import stix2.registry  # noqa: E402
-from stix2.base import _STIXBase  # noqa: E402
+try:
+    import stix2  # noqa: E402
+    import stix2.base  # noqa: E402
+    import stix2.registry  # noqa: E402
+    from stix2.base import _STIXBase  # noqa: E402
+    IMPORT_ERROR = None
+except Exception as _ie:  # noqa: BLE001
+    # the library builds objects from specification text while it is imported (the TLP markings): if that fails in this
+    # process -- e.g. because of its time zone -- every case fails the same way, and says so
+    stix2 = None
+    _STIXBase = object
+    IMPORT_ERROR = type(_ie).__name__ + ": " + str(_ie)[:300]
 
 VERIF = os.environ.get("VERIF_DIR") or os.path.dirname(os.path.dirname(os.path.dirname(os.path.abspath(__file__))))
 
@@ -78,7 +86,8 @@ def _register():
 
 
 try:
-    _register()
+    if IMPORT_ERROR is None:
+        _register()
     REGISTRATION_ERROR = None
 except Exception as _e:  # noqa: BLE001
     REGISTRATION_ERROR = type(_e).__name__ + ": " + str(_e)[:300]
@@ -642,12 +651,23 @@ def observe_case(case):
     return r1
 
 
+IMPORT_REPORTS = [0]
+
 if __name__ == "__main__":
     for line in sys.stdin:
         line = line.strip()
         if not line:
             continue
         case = json.loads(line)
+        if IMPORT_ERROR is not None:
+            IMPORT_REPORTS[0] += 1
+            if IMPORT_REPORTS[0] > 3:
+                print(json.dumps({"created": False, "err": "import", "fails": []}))
+                continue
+            print(json.dumps({"created": False, "err": "import", "fails": [
+                {"kind": "library-not-importable-in-this-process", "opts": {},
+                 "detail": {"error": IMPORT_ERROR, "TZ": os.environ.get("TZ")}}]}))
+            continue
         res = observe_case(case)
         fails = judge(case, res)
         res = slim(res)
